@@ -4,7 +4,8 @@ import SqlgrepModel.Props.C03Select
 C03 (expression level, second file) — the clauses of the sentence that `Props/C03.lean` left to examples, for ALL
 operands, environments and oracle tables (audited together with `C03.lean` and `C03Select.lean` by `./check C03`):
 
-* NOT is two-valued on BOOLEAN (and NULL stays NULL, anything else is an error, not a value);
+* NOT is two-valued on BOOLEAN (and NULL stays NULL — which every condition treats as not holding —, anything else is
+  an error, not a value);
 * a comparison of two non-NULL operands of one comparable kind is decided by the order of the values
   (`compare_by_order`: the Boolean is `applyCmp op (compareValues lv rv)`; what that order IS on numbers, text and
   timestamps is `Props/C16.lean`);
@@ -16,7 +17,11 @@ operands, environments and oracle tables (audited together with `C03.lean` and `
   the right operand of a short-circuiting AND/OR and the branches CASE does not take), a WHERE or a projection
   without a value on an admitted line is the error of `executeLine` (`where_error_is_line_error`,
   `projection_error_is_line_error`), and therefore of the run, with nothing printed for that line
-  (`no_value_is_reported`).
+  (`no_value_is_reported`);
+* a WHERE that HAS a value but no truth value (another type than BOOLEAN, not NULL) is likewise the type error of the
+  line and of the run, not "no row" (`where_type_mismatch_is_line_error`, `where_type_mismatch_is_reported`; finding
+  D69), while FALSE and NULL give no row and no error (`where_null_is_no_row`). The same for the operands of AND / OR
+  and for WHEN conditions: `C03.bool_op_type_mismatch_is_error`, `C03.case_condition_type_mismatch_is_error`.
 -/
 namespace Sqlgrep.Props.C03Expr
 open Sqlgrep
